@@ -57,7 +57,7 @@ class C03(Prop):
         return ic.iso_request(case)
 
     def compare(self, case, io, mo):
-        return ic.compare_xr(io, mo, exact=False, tol=self.TOL, with_r=False, scale=ic.data_scale(case))
+        return ic.compare_xr(io, mo, exact=False, tol=self.TOL, with_r=False, scale=ic.data_scale(case), ylocal=case["y"])
 
     def oracle(self, case, io):
         if "err" in io:
